@@ -104,12 +104,7 @@ impl Value {
     /// Try to parse string value as integer
     pub fn as_integer(&self) -> Option<i64> {
         match self {
-            Value::String(bytes) => {
-                std::str::from_utf8(bytes)
-                    .ok()?
-                    .parse::<i64>()
-                    .ok()
-            }
+            Value::String(bytes) => parse_canonical_i64(bytes),
             _ => None,
         }
     }
@@ -145,6 +140,18 @@ impl Value {
     /// Create an empty stream value for size calculation
     pub fn empty_stream() -> Self {
         Value::Stream(Stream::new())
+    }
+}
+
+/// Parse stored bytes as an integer the way Redis does: only the canonical decimal form counts
+/// ("+5", "007", "-0" and " 5" are not integers), over the whole i64 range.
+pub fn parse_canonical_i64(bytes: &[u8]) -> Option<i64> {
+    let text = std::str::from_utf8(bytes).ok()?;
+    let n = text.parse::<i64>().ok()?;
+    if n.to_string() == text {
+        Some(n)
+    } else {
+        None
     }
 }
 
